@@ -155,12 +155,14 @@ def gen(seed, tier):
     quick = tier == "quick"
     # ---- bounded-exhaustive small scope (seed independent) ----
     scopes = [(1, 3), (2, 2)] if quick else [(1, 4), (2, 2), (2, 3), (3, 2)]
-    stride = {(2, 3): 7, (3, 2): 3}     # thorough: deterministic sub-lattice of the two big families
+    # thorough: the two big families are walked on a sub-lattice whose offset is the seed, so that
+    # runs with different seeds together cover them exhaustively
+    stride = {(2, 3): 3, (3, 2): 2}
     for D, n in scopes:
         trees = all_trees(D, n)
         step = stride.get((D, n), 1)
         for ti, tree in enumerate(trees):
-            if step > 1 and ti % step:
+            if step > 1 and ti % step != seed % step:
                 continue
             for fmts in itertools.product("CU", repeat=D):
                 for build in ("fromFiber", "fromFiber+shape"):
@@ -182,7 +184,7 @@ def gen(seed, tier):
                    "shape": [3, 3, 3] if build == "fromFiber+shape" else None,
                    "spec": weighted_spec(3, fmts), "points": all_points(3, [0, 1, 2])}
     # ---- seeded random ----
-    nrand = 5000 if quick else 120000
+    nrand = 12000 if quick else 120000
     for i in range(nrand):
         D = rng.choice([1, 2, 2, 3, 3])
         n = rng.choice([2, 3, 4, 6]) if D == 3 else rng.choice([2, 3, 5, 8, 12])
@@ -384,18 +386,24 @@ def nontrivial(case, verdict):
     return case["D"] >= 2 or has_u or "explicit-default" in t or "empty-leaf-fiber" in t
 
 
+ORDER = ["filled-defaults", "root", "fiber", "rank", "subtree", "tensor", "tensor-after-queries"]
+
+
 def signature(case, verdict, failed):
-    """classification of a failing case for known_findings.json"""
+    """classification of a failing case for known_findings.json: the first failing clause of the
+    executable spec (in the order of ORDER), whether the rank lists mirrored the tree, and the
+    failing side conditions"""
     parts = []
     if "spec" in failed:
-        why = verdict.get("why", "").replace("spec fails on: ", "").replace(", ", "+")
-        parts.append("spec:" + (why or "?"))
+        why = verdict.get("why", "").replace("spec fails on: ", "").split(", ")
+        first = [w for w in ORDER if w in why]
+        parts.append("spec:" + (first[0] if first else (why[0] or "?")))
         if "MIRROR_BROKEN" in verdict.get("tags", []):
             parts.append("mirror-broken")
     rest = sorted(f for f in failed if f != "spec")
     if rest:
         parts.append("/".join(rest))
-    return case.get("build", "?") + ":" + ":".join(parts)
+    return ":".join(parts)
 
 
 def shrink_candidates(case):
